@@ -1255,3 +1255,75 @@ theorem spell_parse_real (c : Depth) (hc : c.cur < c.max) (lead : Bytes) (hlead 
     have := number_first_byte y hcls
     exact ⟨this.2.2.2.2.2.2.2.2.1, this.2.2.2.2.2.2.2.2.2⟩
   · exact parseInternal_real _ _ sg ds fs ctx hfne hds hfs hctx hfit hden
+
+/-! ## the reference look-ahead, in general -/
+
+/-- the dispatcher's look-ahead after a first integer ending at `j`: non-empty whitespace, an
+    integer, non-empty whitespace, `R` ending its token -/
+def lookAhead (s : Bytes) (j : Nat) : Bool :=
+  match wsEOL false s j with
+  | (.ok _, j1) =>
+    match integerP s j1 with
+    | (.ok _, j2) =>
+      match wsEOL false s j2 with
+      | (.ok _, j3) => startsWith [82] s j3 && !((peek s (j3 + 1)).any isRegular)
+      | _ => false
+    | _ => false
+  | _ => false
+
+/-- **the number branch, characterised**: after an in-range integer-valued `RealP` result ending
+    at `j`, the dispatcher returns that integer with cursor `j` unless the look-ahead succeeds,
+    in which case it re-parses from the start as a reference. -/
+theorem numberOrRef_after_int (s : Bytes) (i j : Nat) (n : Int) (hs : i ≤ s.length)
+    (hr : realP s i = (.ok ⟨(n, 1), i, j⟩, j))
+    (hn : -(2 ^ 63 : Int) ≤ n ∧ n ≤ (2 ^ 63 - 1 : Int)) :
+    numberOrRef s i =
+      if lookAhead s j then
+        (match referenceP s i with
+          | (.ok (a, g), j4) => (.ok (.ref a g), j4)
+          | (.err k, j4) => (.err k, j4)
+          | (.panic p, j4) => (.panic p, j4))
+      else (.ok (.int n), j) := by
+  have hj : j ≤ s.length := by
+    have := realP_loc s i hs; rw [hr] at this; exact this.2.2.2
+  unfold numberOrRef lookAhead
+  rw [hr]
+  simp only
+  have hrange : (!((1 : Nat) == 1 && decide (-(2 ^ 63 : Int) ≤ n) && decide (n ≤ (2 ^ 63 - 1 : Int)))) = false := by
+    simp [hn.1, hn.2]
+  simp only [hrange, Bool.false_eq_true, if_false]
+  have p1 := wsEOL_progress false s j hj
+  cases h1 : wsEOL false s j with
+  | mk r1 j1 =>
+    rw [h1] at p1
+    cases r1 with
+    | panic p => exact p1.elim
+    | err e => simp
+    | ok u =>
+      simp only
+      have hj1 : j1 ≤ s.length := p1.2.1
+      have p2 := integerP_progress s j1 hj1
+      cases h2 : integerP s j1 with
+      | mk r2 j2 =>
+        rw [h2] at p2
+        cases r2 with
+        | panic p => exact p2.elim
+        | err e => simp
+        | ok g =>
+          simp only
+          have hj2 : j2 ≤ s.length := p2.2.2.2
+          have p3 := wsEOL_progress false s j2 hj2
+          cases h3 : wsEOL false s j2 with
+          | mk r3 j3 =>
+            rw [h3] at p3
+            cases r3 with
+            | panic p => exact p3.elim
+            | err e => simp
+            | ok u2 => simp only
+
+/-- no look-ahead when the integer is not followed by whitespace -/
+theorem lookAhead_false_of_no_ws (s : Bytes) (j : Nat) (hj : j ≤ s.length) (h : skipWs (s.drop j) = 0) :
+    lookAhead s j = false := by
+  unfold lookAhead
+  rw [wsEOL_eq false s j hj]
+  simp [h]
